@@ -477,6 +477,34 @@ def gen_cases(rng, tier, boost):
                        as_total=rng.choice(["h", "H", "m", "M", "s", "S"]), **common)
         else:
             yield Case([], version=True, **common)
+    # --utc with a zoned argument whose local date and UTC date lie on opposite sides of a month end, and
+    # month/year offsets: the conversion has to happen before the offsets are applied
+    nb = 150 * boost if tier == "quick" else 1500 * boost
+    for i in range(nb):
+        cal = rng.choice(CALS)
+        m = MODE_OF[cal]
+        y = rng.choice([1999, 2000, 2004, 2019, 2020, 2021])
+        mo = rng.randint(1, 12)
+        last = oracle.month_len(m, y, mo)
+        if rng.random() < 0.5:
+            d, hh, sign = 1, rng.choice([0, 0, 1, 3]), "+"          # early on the 1st, east of Greenwich
+        else:
+            d, hh, sign = last, rng.choice([23, 23, 22, 20]), "-"   # late on the last day, west of Greenwich
+        zone = "%s%02d:%02d" % (sign, rng.choice([1, 2, 5, 9, 12]), rng.choice([0, 0, 30, 45]))
+        item = "%04d-%02d-%02dT%02d:%02d%s" % (y, mo, d, hh, rng.choice([0, 30, 59]), zone)
+        noms = [rng.choice(["P1M", "-P1M", "P1Y", "-P1Y", "P13M", "P1M1D", "-P2M", "P11M"])
+                for _ in range(rng.choice([1, 1, 2]))]
+        common = dict(calendar=cal, utc=rng.random() < 0.8, local_tz=rng.choice(LOCAL_TZ),
+                      spell_seed=rng.getrandbits(30))
+        if rng.random() < 0.55:
+            yield Case([item], offsets1=noms, print_format=rng.choice([None, None, "CCYY-MM-DDThh:mm+hh:mm", "%F %X %z"]),
+                       **common)
+        else:
+            other = point_text(rng, m, style="ext")
+            first = rng.random() < 0.5
+            yield Case([item, other] if first else [other, item],
+                       offsets1=noms if first else [], offsets2=[] if first else noms,
+                       as_total=rng.choice([None, None, "h", "s"]), **common)
     # malformed arguments in every slot
     bad_points = ["", "garbage", "2000-13-01", "2000-02-30T00Z", "20000101T25", "2000-W54-1", "2000-366", "T",
                   "2000-01-01T00:00:60Z", "٢٠٠٠", "2000T00T00", "+2000", "R", "R/", "R/2000",
